@@ -27,7 +27,13 @@ def panel_spec(draw, max_geos=6, min_geos=1, max_dates=30, flat=False):
   else:
     pool = DIGIT_IDS if style == 'digits' else NAME_IDS
     ids = list(draw(st.permutations(pool)))[:n_geos]
+  near = []
+  if n_geos >= 3 and draw(st.integers(0, 5)) == 0:
+    i = draw(st.integers(0, n_geos - 1))
+    j = draw(st.integers(0, n_geos - 2))
+    near = [[i, j if j < i else j + 1]]
   return {
+      'near_copy': near,
       'n_test': n_test, 'n_dates': n_dates, 'freq': draw(st.sampled_from(['D', 'D', 'W'])), 'start': draw(st.integers(0, 2000)),
       'ids': ids, 'id_int': style != 'names' and draw(st.booleans()),
       'level': draw(st.lists(st.sampled_from(LEVELS), min_size=n_geos, max_size=n_geos)),
@@ -49,9 +55,11 @@ def panel_spec(draw, max_geos=6, min_geos=1, max_dates=30, flat=False):
       'date_str': draw(st.integers(0, 5)) == 0,
       'row_labels': draw(st.sampled_from([None, None, None, 'kept', 'gaps', 'repeated'])),
       # a large stable baseline under every geo (levels of ~1e7 moving by tens: numerically demanding, still exact)
-      'offset': draw(st.sampled_from([0, 0, 0, 0, 2 ** 24, 2 ** 26])),
+      'offset': 0 if near else draw(st.sampled_from([0, 0, 0, 0, 2 ** 24, 2 ** 26])),
       # readings stamped at noon instead of midnight
       'hour': draw(st.sampled_from([0, 0, 0, 12])),
+      # the whole panel in another unit (per-mille shares ... micro-currency): exact powers of two
+      'unit_k': draw(st.sampled_from([0, 0, 0, 0, 0, 0, -24, -12, 20, 30])),
       # geo column dtype: Python ints / ints and strings in an object column, pandas string dtype
       'geo_dtype': draw(st.sampled_from([None, None, None, None, 'object', 'mixed', 'string'])),
       # rows sorted like a database export (ascending geo, dates newest first / in another fixed order; newest date first)
